@@ -9,7 +9,9 @@ from harness.checks import wild_common as wc
 from harness.result import CheckResult
 
 ASSUMPTIONS = [
-    "projects stay inside the documented input language: no a.py next to a/, no dots in directory names, no symlinks; "
+    "projects stay inside the documented input language: no a.py next to a/, no dots in directory names, no symlinks "
+    "inside the tree (a quarter of the random projects is reached through a root directory that is a symbolic link "
+    "named differently from its target: names follow the directory name given); "
     "names with regex metacharacters only for entries that are never imported",
     "the sub-scan = restricted-root-scan law is judged for projects whose absolute imports are root-qualified or "
     "relative (Trace_Scan 'restrict'); names written relative to module_path's parent are checked to resolve by the "
@@ -55,6 +57,8 @@ def run(ctx):
     for i in range(n_rand):
         p = projgen.random_project(rng, max_depth=rng.choice([2, 3, 4, 5]), odd=rng.random() < 0.3,
                                    externals=rng.random() < 0.5, rel_abs=True)
+        if rng.random() < 0.25 and not p.get("links"):
+            p["root_via_link"] = True       # root_path is a symbolic link named differently from its target
         specs.append(episode_for(p, rng))
     # real source trees found on this machine (harness/wild.py), abstracted independently of pytestarch
     wspecs, wtrees = wc.specs(ctx, random.Random(ctx.seed * 7919 + 100), "C04")
